@@ -1,10 +1,11 @@
 (* C03/Harness.v — comparison of the model's deterministic scheduler with the event log recorded from
    the real BaseExporter by harness/C03/shutdown_test.go.
    Case term:  (cfg, phases, final)
-     cfg    : [persistent; batch; timer; retry mode; consumers; min_size; wait_for_result]   (list nat)
+     cfg    : [persistent; batch; timer; retry mode; consumers; min_size; wait_for_result;
+               queue-size snapshot write fails; storage Close fails]   (list nat)
      phases : list (action, events observed until quiescence after the action)
               action = (0, id, items) offer | (1, first id of the call, outcome 0 ok/1 transient/2 permanent)
-                       release | (2, 0, 0) call Shutdown | (2, m, 1) call Shutdown, race observed (see Model.v) | (3, 0, 0) the flush timer fires
+                       release | (2, 0, 0) call Shutdown | (2, m, 1|2) call Shutdown, race observed (2: it returned an error; see Model.v) | (3, 0, 0) the flush timer fires
               event  = (kind, sorted ids), sorted within the phase (kinds: see Model.v [event])
      final  : (sorted ids whose body is still in the storage, live helper goroutines at the end) *)
 From Verif Require Import Common.Base C03.Model.
@@ -16,8 +17,8 @@ Definition nz (n : nat) : bool := negb (Nat.eqb n 0).
 
 Definition hcfg_of (l : list nat) : option hcfg :=
   match l with
-  | [p; b; t; m; n; mn; w] =>
-      Some (mkH (mkCfg (nz p) (nz b) (nz t) (nz m) n (if nz b then 1 else 0)) m mn (nz w))
+  | [p; b; t; m; n; mn; w; fs; fc] =>
+      Some (mkH (mkCfg (nz p) (nz b) (nz t) (nz m) n (if nz b then 1 else 0)) m mn (nz w) (nz fs) (nz fc))
   | _ => None
   end.
 
@@ -27,7 +28,8 @@ Definition action_of (a : nat * nat * nat) : option action :=
   | (1, i, 0) => Some (ARelease i OOk)
   | (1, i, 1) => Some (ARelease i OTransient)
   | (1, i, 2) => Some (ARelease i OPermanent)
-  | (2, m, 1) => Some (AShutdownRace m)
+  | (2, m, 1) => Some (AShutdownRace m false)
+  | (2, m, 2) => Some (AShutdownRace m true)
   | (2, _, _) => Some AShutdown
   | (3, _, _) => Some ATimerFire
   | _ => None
@@ -53,13 +55,25 @@ Definition model_out (c : ctype) : option (list (list (nat * list nat)) * (list 
   | _, _ => None
   end.
 
+(* second kind of case (harness/C03/refcount_test.go): cfg = 9 :: codes of the parts' results in report order
+   (0 nil | 1 permanent | 2 other final error | 3 shutdown error), final = ([1] kept in the storage | [0] deleted, 0) *)
+Definition result_of_code (n : nat) : result :=
+  match n with 0 => RSuccess | 3 => RShutdown | _ => RFail end.
+
+Definition check_refcount (codes kept : list nat) : bool :=
+  list_eqb Nat.eqb kept [if kept_after (map result_of_code codes) then 1 else 0].
+
 Definition check_case (c : ctype) : bool :=
-  let '(_, phases, fin) := c in
+  let '(cf, phases, fin) := c in
+  match cf with
+  | 9 :: codes => check_refcount codes (fst fin)
+  | _ =>
   match model_out c with
   | Some (evss, (st, lv)) =>
       list_eqb (list_eqb ev_eqb) evss (map snd phases)
       && list_eqb Nat.eqb st (fst fin) && Nat.eqb lv (snd fin)
   | None => false
+  end
   end.
 
 (* ---- which labels of the LTS do the replayed cases exercise?  (evidence: model_label_histogram) ---- *)
@@ -69,7 +83,7 @@ Definition label_index (l : label) : nat :=
   | LSpawnC _ => 6 | LBegin _ => 7 | LEnd _ OOk => 8 | LEnd _ OTransient => 9 | LEnd _ OPermanent => 10
   | LRetryTimer _ => 11 | LRetryStop _ => 12 | LRetryGiveUp _ => 13 | LDone _ => 14
   | LTimerFire => 15 | LTimerSpawn => 16 | LTimerExit => 17
-  | LShutCall => 18 | LCloseStop => 19 | LQueueStop => 20 | LJoinConsumers => 21 | LFinalFlush => 22
+  | LShutCall => 18 | LCloseStop => 19 | LQueueStop _ => 20 | LJoinConsumers => 21 | LFinalFlush => 22
   | LFinalSpawn => 23 | LJoinFlushes => 24 | LInnerShutdown => 25 | LReturn => 26
   end.
 
